@@ -178,6 +178,14 @@ def src(s):
         return "Peek(%s)" % src(s[1])
     if k == "pointer":
         return "Pointer(%d, %s)" % (s[1], src(s[2]))
+    if k == "pstring":
+        return "PaddedString(%d, %r)" % (s[1], s[2])
+    if k == "cstring":
+        return "CString(%r)" % s[1]
+    if k == "pascal":
+        return "PascalString(%s, %r)" % (src(s[1]), s[2])
+    if k == "greedystring":
+        return "GreedyString(%r)" % s[1]
     if k == "raw":
         return s[1]
     raise ValueError("unknown spec %r" % (s,))
@@ -295,6 +303,15 @@ def domain(ctx, s, name, tier="quick", wide=False, env=None):
         return domain(ctx, s[2], name, tier, wide, env)
     if k in ("nullterminated", "nullstripped"):
         return domain(ctx, s[1], name, tier, wide, env)
+    if k in ("pstring", "cstring", "pascal", "greedystring"):
+        enc = s[2] if k in ("pstring", "pascal") else s[1]
+        ncp = s[-1]
+        maxcp = 0x7F if enc == "ascii" else 0x10FFFF
+        v = ctx.str(name, ncp, maxcp)
+        if STRICT[0]:
+            for ch in getattr(v, "items", [ord(c) for c in v] if isinstance(v, str) else []):
+                ctx.assume(ch != 0)          # a NUL inside the text collides with terminator / padding stripping by design
+        return v
     if k == "bytesctx":
         if s[2] is None:
             if s[1] in env:
@@ -371,7 +388,7 @@ def walk(s):
                     yield from walk(y[1])
 
 
-_KINDS = set("""fmt float bytesint bitsint varint zigzag flag pass bytes bytesctx greedybytes const constv computed tell
+_KINDS = set("""pstring cstring pascal greedystring fmt float bytesint bitsint varint zigzag flag pass bytes bytesctx greedybytes const constv computed tell
 terminated error enum flagsenum mapping hex oneof noneof rebuildlen default struct seq focusedseq array arrayctx greedyrange
 prefixedarray repeatuntil prefixed fixedsized nullterminated nullstripped padded aligned if ifthenelse switch select optional
 bitwise bytewise byteswapped bitsswapped xor rawcopy peek pointer raw""".split())
@@ -396,7 +413,10 @@ BITS_S = ("bitwise", ("struct", (("p", ("bitsint", 3, False, False)), ("q", ("bi
 BITS16 = ("bitwise", ("struct", (("p", ("bitsint", 1, False, False)), ("q", ("bitsint", 10, True, False)), ("f", FLAG), ("r", ("bitsint", 4, False, False)))))
 
 BITS_SW = ("bitwise", ("struct", (("s", ("bitsint", 16, True, True)), ("u", ("bitsint", 8, False, True)))))
-LEAVES = [I8, I16l, I16sb, I24, I64s, ("bytesint", 5, True, True), VAR, ZZ, FLAG, ("bytes", 2), ENUM_S, FLAGS_S, MAP_S, BITS_S, BITS_SW]
+STR_C = ("cstring", "utf8", 1)
+STR_P = ("pstring", 4, "utf_16_le", 1)
+STR_L = ("pascal", ("fmt", "Int8ub"), "utf8", 2)
+LEAVES = [I8, I16l, I16sb, I24, I64s, ("bytesint", 5, True, True), VAR, ZZ, FLAG, ("bytes", 2), ENUM_S, FLAGS_S, MAP_S, BITS_S, BITS_SW, STR_C, STR_P, STR_L]
 LEAVES_SMALL = [I8, I16sb, VAR, FLAG, ("bytes", 2), ENUM_S]
 
 
@@ -404,7 +424,7 @@ def is_greedy(s):
     """does the construct read to the end of the stream?"""
     s = T(s)
     k = s[0]
-    if k in ("greedybytes", "greedyrange", "nullstripped", "xor"):
+    if k in ("greedybytes", "greedyrange", "nullstripped", "xor", "greedystring"):
         return True
     if k in ("optional", "select"):
         return True          # alternatives look at whatever follows
